@@ -65,3 +65,11 @@ def c11_count_with_name_counts_nulls(sc, rec):
         return False
     f = (((sc or {}).get('spec') or {}).get('fields') or {}).get(d.get('field')) or {}
     return f.get('aggregate') == 'count' and 'name' in f
+
+
+def c16_concatenate_empty_row(sc, rec):
+    """concatenate aborts with its own assertion 'Got an empty row after concatenation' for a source row whose mapped
+    cells are all null (the pipeline has a concatenate step and nothing else raised)."""
+    d = rec.get('detail') or {}
+    return (rec.get('clause') == 'raised' and str(rec.get('key', '')).endswith(':empty-row-after-concatenation') and bool(d.get('empty_row_assertion'))
+            and 'concatenate' in _steps(sc))
